@@ -42,10 +42,16 @@ impl ClusterSpec {
     }
 }
 
+thread_local! {
+    /// when set, simulators created by `form` keep the bytes of every datagram sent (C07's traffic part)
+    pub static KEEP_SENT: std::cell::Cell<bool> = std::cell::Cell::new(false);
+}
+
 /// Builds the simulator and schedules formation. Returns the sim and the instant formation is done
 /// (last join / last injection). `on_step` sees every event during formation.
 pub fn form<E>(spec: &ClusterSpec, mut on_step: impl FnMut(&Sim, &StepInfo) -> Result<(), E>) -> Result<(Sim, u64), E> {
     let mut sim = Sim::new(spec.codec, spec.seed ^ 0xC1A5_7E12, 1, spec.lat_max_us as u64);
+    sim.keep_sent = KEEP_SENT.with(|k| k.get());
     let n = spec.n as usize;
     let nseed = |i: usize| crate::engine::splitmix(spec.seed, i as u64 + 1);
     let inc_of = |i: usize| spec.incarnations.get(i).copied().unwrap_or(0);
@@ -146,7 +152,7 @@ impl Default for ClusterProfile {
             announce_down: None,
             notify_down: None,
             renew: vec![RENEW_NONE, RENEW_NEXT],
-            codecs: vec![CodecKind::Fix, CodecKind::Var],
+            codecs: vec![CodecKind::Fix, CodecKind::Fix, CodecKind::Var, CodecKind::Var, CodecKind::Postcard, CodecKind::Bincode],
             packet: vec![(1400, 1401)],
             suspect_periods: (3, 6),
         }
